@@ -361,3 +361,76 @@ Proof.
   unfold ast_is_blocked, ast_step. rewrite Hth. unfold ast_step_pc. rewrite Hpc.
   unfold ast_att_chan. rewrite Ex, Hc. reflexivity.
 Qed.
+
+(* ------------------------------------------------------------------ who writes result/err *)
+Definition ast_stores (pc : ast_pc) (t : nat) : bool :=
+  match pc with AstDStoreRes t' _ _ _ _ | AstDStoreTo t' _ _ => t' =? t | AstIStoreO _ _ _ => true | _ => false end.
+
+(* result and err of a task change only in the store step of the dispatcher that holds it *)
+Lemma ast_step_writes n s tid hint th t x x' :
+  nth_error (ast_thr s) tid = Some th -> ast_stores (ath_pc th) t = false ->
+  nth_error (ast_tasks s) t = Some x ->
+  nth_error (ast_tasks (fst (fst (ast_step AstFixed n s tid hint)))) t = Some x' ->
+  att_res x' = att_res x /\ att_err x' = att_err x.
+Proof.
+  intros Eth Hst Hx. unfold ast_step. rewrite Eth.
+  destruct th as [pc prog hs]. unfold ast_step_pc. cbn [ath_pc ath_prog ath_handles] in *.
+  destruct pc; cbn [ast_stores] in Hst;
+    repeat first [progress (unfold ast_wait_ctx; ast_cbn) | match goal with
+    | |- context [match ?x with _ => _ end] => destruct x eqn:?
+    end]; intros Hx'; ast_norm; ast_eqb; try lia; try discriminate;
+    repeat match type of Hx' with context [nth_error ?l ?t] =>
+      let E := fresh "E" in destruct (nth_error l t) eqn:E; rewrite ?E in * end;
+    cbn in *; try discriminate; try (injection Hx' as <-); try (injection Hx as <-); cbn; try (split; congruence).
+  all: try (apply ast_nth_lt in Hx; lia).
+Qed.
+
+Definition ast_is_storeo (pc : ast_pc) : bool := match pc with AstIStoreO _ _ _ => true | _ => false end.
+
+(* the fixed code has no store by the inner callback: that pc is unreachable *)
+Lemma ast_step_no_storeo n s tid hint :
+  (forall i pc, ast_pc_of s i = Some pc -> ast_is_storeo pc = false) ->
+  forall i pc, ast_pc_of (fst (fst (ast_step AstFixed n s tid hint))) i = Some pc -> ast_is_storeo pc = false.
+Proof.
+  intros Inv. unfold ast_step. destruct (nth_error (ast_thr s) tid) as [th|] eqn:Eth; [|exact Inv].
+  pose proof (Inv tid (ath_pc th)) as O. unfold ast_pc_of in O. rewrite Eth in O. specialize (O eq_refl).
+  destruct th as [pc prog hs]. unfold ast_step_pc. cbn [ath_pc ath_prog ath_handles] in *.
+  destruct pc; cbn [ast_is_storeo] in O; try discriminate;
+    repeat first [progress (unfold ast_wait_ctx; ast_cbn) | match goal with
+    | |- context [match ?x with _ => _ end] => destruct x eqn:?
+    end]; try exact Inv;
+    intros ii pc0 H1; ast_norm; ast_eqb;
+    try (rewrite Eth in H1; ast_cbn; injection H1 as <-; reflexivity);
+    try (apply (Inv ii); unfold ast_pc_of; exact H1).
+Qed.
+
+Lemma ast_run_no_storeo n sched : forall s,
+  (forall i pc, ast_pc_of s i = Some pc -> ast_is_storeo pc = false) ->
+  forall i pc, ast_pc_of (ast_run AstFixed n s sched) i = Some pc -> ast_is_storeo pc = false.
+Proof.
+  induction sched as [|[tid h] r IH]; intros s H; [exact H|]. cbn [ast_run fold_left]. apply IH.
+  unfold ast_next. cbn [fst snd]. apply ast_step_no_storeo. exact H.
+Qed.
+
+(* ONLY THE DISPATCHER RUNNING A TASK WRITES ITS result/err: in every reachable state of the fixed code a step changes
+   result or err of task t only if the stepping thread is parked before one of the two stores of runTaskOnce for t;
+   that thread holds t, and no other thread does (ast_steps_task_single_holder) *)
+Lemma ast_steps_only_dispatcher_writes n progs s tid hint th t x x' :
+  ast_reach AstFixed n progs s ->
+  nth_error (ast_thr s) tid = Some th ->
+  nth_error (ast_tasks s) t = Some x ->
+  nth_error (ast_tasks (fst (fst (ast_step AstFixed n s tid hint)))) t = Some x' ->
+  (att_res x', att_err x') <> (att_res x, att_err x) ->
+  (exists a i v e, ath_pc th = AstDStoreRes t a i v e) \/ (exists a i, ath_pc th = AstDStoreTo t a i).
+Proof.
+  intros [sched ->] Hth Hx Hx' Hne.
+  destruct (ast_stores (ath_pc th) t) eqn:Hs.
+  - destruct (ath_pc th) eqn:Hpc; cbn [ast_stores] in Hs; try discriminate.
+    + apply Nat.eqb_eq in Hs. subst. left. eauto.
+    + apply Nat.eqb_eq in Hs. subst. right. eauto.
+    + exfalso. assert (H : ast_is_storeo (AstIStoreO a v e) = false); [|discriminate].
+      apply (ast_run_no_storeo n sched (ast_init n progs)) with (i := tid).
+      * intros i pc H1. destruct (ast_init_pcs _ _ _ _ H1) as [->|[->| ->]]; reflexivity.
+      * unfold ast_pc_of. rewrite Hth. cbn. congruence.
+  - exfalso. apply Hne. destruct (ast_step_writes n _ tid hint th t x x' Hth Hs Hx Hx') as [-> ->]. reflexivity.
+Qed.
